@@ -400,10 +400,65 @@ def translate_cmp(tr):
     return '\n'.join(out) + '\n'
 
 
+class Simple:
+    """methods made of  name = expr  lines and a return, over the integer parameters, the whole-second part of x.toAbsTime() and ObsTime.readUnixTime(e) as the value returned
+    (addSec / addMin / addHour / addDay / __sub__; the sub-second part is outside the integer domain, see the module docstring)"""
+
+    def __init__(self, tr, name, node, abs_fn, read_fn):
+        self.tr = tr; self.name = name; self.node = node; self.abs_fn = abs_fn; self.read_fn = read_fn
+        self.args = [a.arg for a in node.args.args]
+        if len(self.args) != 2 or node.args.defaults or node.args.vararg or node.args.kwarg:
+            raise Untranslatable('%s: parameters %r' % (name, self.args))
+
+    def E(self, n, env):
+        if isinstance(n, ast.Constant) and isinstance(n.value, int) and not isinstance(n.value, bool):
+            return str(n.value) if n.value >= 0 else '(%d)' % n.value
+        if isinstance(n, ast.Name) and n.id in env:
+            return env[n.id]
+        if isinstance(n, ast.BinOp) and type(n.op) in (ast.Add, ast.Sub, ast.Mult):
+            return '(%s %s %s)' % (self.E(n.left, env), {ast.Add: '+', ast.Sub: '-', ast.Mult: '*'}[type(n.op)], self.E(n.right, env))
+        if isinstance(n, ast.Call) and not n.args and not n.keywords and isinstance(n.func, ast.Attribute) and n.func.attr == self.abs_fn \
+                and isinstance(n.func.value, ast.Name) and n.func.value.id in self.objs:
+            return '(gen_%s %s)' % (self.abs_fn, self.objs[n.func.value.id])
+        raise Untranslatable('%s: expression %s (line %d)' % (self.name, type(n).__name__, getattr(n, 'lineno', 0)))
+
+    def text(self, second_is_object):
+        a, b = self.args
+        self.objs = {a: 't'}
+        env = {}
+        if second_is_object:
+            self.objs[b] = 'u'; sig = '(t u : date)'
+        else:
+            env[b] = V(b); sig = '(t : date) (%s : Z)' % V(b)
+        body = [s for s in self.node.body if not (isinstance(s, ast.Expr) and isinstance(s.value, ast.Constant) and isinstance(s.value.value, str))]
+        out = ''
+        for s in body[:-1]:
+            if not (isinstance(s, ast.Assign) and len(s.targets) == 1 and isinstance(s.targets[0], ast.Name)):
+                raise Untranslatable('%s: statement %s (line %d)' % (self.name, type(s).__name__, s.lineno))
+            out += 'let %s := %s in\n  ' % (V(s.targets[0].id), self.E(s.value, env))
+            env = dict(env); env[s.targets[0].id] = V(s.targets[0].id)
+        r = body[-1] if body else None
+        if not isinstance(r, ast.Return):
+            raise Untranslatable('%s does not end with return' % self.name)
+        v = r.value
+        if isinstance(v, ast.Call) and isinstance(v.func, ast.Attribute) and isinstance(v.func.value, ast.Name) and v.func.value.id == self.tr.cls and v.func.attr == self.read_fn \
+                and len(v.args) == 1 and not v.keywords:
+            return 'Definition gen_%s (fuel : nat) %s : date :=\n  %s(gen_%s fuel %s).' % (self.name, sig, out, self.read_fn, self.E(v.args[0], env))
+        return 'Definition gen%s %s : Z :=\n  %s%s.' % (self.name if self.name.startswith('__') else '_' + self.name, sig, out, self.E(v, env))
+
+
+def translate_simple(tr):
+    out = ['', '(* shifts and difference (whole seconds) *)']
+    for name in ('addSec', 'addMin', 'addHour', 'addDay'):
+        out.append(Simple(tr, name, tr.fn(name), 'toAbsTime', 'readUnixTime').text(False))
+    out.append(Simple(tr, '__sub__', tr.fn('__sub__'), 'toAbsTime', 'readUnixTime').text(True))
+    return '\n'.join(out) + '\n'
+
+
 def translate_obstime(path):
     src = open(path).read()
     tr = Translator(src, 'ObsTime')
-    return tr.translate('isLeapYear', 'readUnixTime', 'toAbsTime') + translate_cmp(tr)
+    return tr.translate('isLeapYear', 'readUnixTime', 'toAbsTime') + translate_cmp(tr) + translate_simple(tr)
 
 
 if __name__ == '__main__':
